@@ -1,9 +1,615 @@
 package props
 
-import "verif/internal/core"
+import (
+	"bufio"
+	"bytes"
+	"encoding/json"
+	"fmt"
+	"html"
+	"net"
+	"path/filepath"
+	"strconv"
+	"strings"
+	"sync"
+	"time"
 
-// C14 — stub, replaced by the real check.
+	"verif/internal/core"
+	"verif/internal/fakes"
+	"verif/internal/rawhttp"
+)
+
+// c14Spec mirrors worker.c14Spec (the orchestrator must not import the worker
+// package: it links the code under test).
+type c14Spec struct {
+	Seed   int64 `json:"seed"`
+	Shard  int   `json:"shard"`
+	Shards int   `json:"shards"`
+	Banner int   `json:"banner"`
+	Shim   int   `json:"shim"`
+	Only   int   `json:"only"`
+}
+
+type c14Line struct {
+	I       *int            `json:"i"`
+	Kind    string          `json:"k"`
+	Class   string          `json:"c"`
+	Outcome string          `json:"o"`
+	Flags   []string        `json:"f"`
+	Sig     string          `json:"sig"`
+	Msg     string          `json:"msg"`
+	Case    json.RawMessage `json:"case"`
+	Detail  json.RawMessage `json:"detail"`
+	Done    *int            `json:"done"`
+	Fatal   string          `json:"fatal"`
+}
+
+const c14NilCases = 5
+
+// C14 — banner and shim-script injection touch HTML documents only.
 func C14(r *core.Run) {
-	r.Broken("check not implemented yet")
-	r.Finish(1)
+	r.SetRule("E2 differential: the same scripted handler (status, repeated header fields, body in a chosen Write segmentation, optional explicit WriteHeader/Flush/103) served directly and through banner.Proxy(…, metricHandler=nil); two thirds of the banner cases lie on the boundary of D = GET ∧ Accept∋text/html ∧ 200 ∧ ¬attachment ∧ HTML type (a D point with 0, 1 or 2 dimensions flipped × every Sec-Fetch-Mode/Dest/Referer combination), one third walks the product method×Accept×status×Content-Type×Content-Disposition; websockets.ShimBody applied to responses whose body is a scripted reader (layout of <head> × read segmentation × content type enumerated). class = (component, method, Accept class, framed?, status, content-type class, disposition) resp. (content type, <head> layout, read segmentation, Content-Length present)")
+	r.Assume("paths Go's ServeMux redirects by itself are not generated; inputs whose classification the statement leaves open (Accept/Content-Type/disposition in other letter case, text/html only in a second Accept line or with q=0, mixed Content-Type values, Referer host in other case) are only held to 'original response or well-formed frame'; a <head> that is not complete within the first read of the backend body may or may not get the script; 'marked uncacheable' is read as Cache-Control no-cache or no-store (Pragma/Expires are counted, not required); a stale backend Content-Length on the frame page is counted, not judged (the agent's response writer never forwards it); E1 sample through the agent binary: see e1_sample")
+	bin := r.MustBuild(r.BuildWorker())
+
+	nBanner, nShim := r.Pick(3600, 170000), r.Pick(1600, 80000)
+	shards := r.Pick(8, 14)
+	only := -1
+	if r.OnlyCase >= 0 {
+		only, shards = r.OnlyCase, 1
+	}
+	timeout := time.Duration(r.Pick(180, 1500)) * time.Second
+
+	type shardOut struct {
+		out  []byte
+		log  string
+		err  error
+		took time.Duration
+	}
+	outs := make([]shardOut, shards)
+	var wg sync.WaitGroup
+	for s := 0; s < shards; s++ {
+		wg.Add(1)
+		go func(s int) {
+			defer wg.Done()
+			time.Sleep(time.Duration(s) * 3 * time.Millisecond) // distinct log names
+			spec, _ := json.Marshal(c14Spec{Seed: r.Seed, Shard: s, Shards: shards, Banner: nBanner, Shim: nShim, Only: only})
+			t0 := time.Now()
+			o, lp, err := r.RunWorker(bin, "c14", spec, timeout)
+			outs[s] = shardOut{o, lp, err, time.Since(t0)}
+		}(s)
+	}
+	wg.Wait()
+
+	seen := map[int]bool{}
+	outcomes := map[string]int{}
+	flags := map[string]int{}
+	kinds := map[string]int{}
+	for s, so := range outs {
+		done := false
+		sc := bufio.NewScanner(bytes.NewReader(so.out))
+		sc.Buffer(make([]byte, 1<<20), 1<<26)
+		for sc.Scan() {
+			var ln c14Line
+			if err := json.Unmarshal(sc.Bytes(), &ln); err != nil {
+				r.Broken(fmt.Sprintf("shard %d: unparsable worker line %q: %v", s, core.Trunc(sc.Text(), 200), err))
+				continue
+			}
+			if ln.Fatal != "" {
+				r.Broken(fmt.Sprintf("shard %d: %s", s, ln.Fatal))
+				continue
+			}
+			if ln.Done != nil {
+				done = true
+				continue
+			}
+			if ln.I == nil {
+				continue
+			}
+			if seen[*ln.I] {
+				r.Broken(fmt.Sprintf("case %d reported twice", *ln.I))
+				continue
+			}
+			seen[*ln.I] = true
+			if ln.Sig == "HARNESS" {
+				r.Broken(fmt.Sprintf("case %d: %s", *ln.I, ln.Msg))
+				continue
+			}
+			r.Case(ln.Class)
+			kinds[ln.Kind]++
+			outcomes[ln.Outcome]++
+			for _, f := range ln.Flags {
+				flags[f]++
+			}
+			var cs, det interface{}
+			if len(ln.Case) > 0 {
+				json.Unmarshal(ln.Case, &cs)
+			}
+			if len(ln.Detail) > 0 {
+				json.Unmarshal(ln.Detail, &det)
+			}
+			if ln.Sig != "" {
+				r.Violate(ln.Sig, fmt.Sprintf("case %d (replay: VERIF_ONLY_CASE=%d): %s", *ln.I, *ln.I, ln.Msg), cs, det)
+			} else if cs != nil && (ln.Outcome == "frame" || ln.Outcome == "shim:inserted" || ln.Outcome == "framed-original-body" || ln.Outcome == "identical") {
+				r.Sample(map[string]interface{}{"case": cs, "outcome": ln.Outcome, "flags": ln.Flags})
+			}
+		}
+		// crash monitor: a process-fatal report is attributed to the last announced case
+		crashed := false
+		for _, ex := range core.CrashMarkers(so.log) {
+			crashed = true
+			last := core.LastStarted(so.log, 1)
+			where := "banner"
+			if len(last) > 0 && (strings.HasPrefix(last[0], "s") || strings.HasPrefix(last[0], "n")) {
+				where = "shim"
+			}
+			r.Violate("C14:panic:"+where+":"+core.CrashSignature(ex), fmt.Sprintf("worker shard %d died while running case %v: %s", s, last, ex), map[string]interface{}{"last_started": last}, nil)
+		}
+		if !done && !crashed {
+			r.Broken(fmt.Sprintf("worker shard %d did not finish (err=%v, last started %v, %d B of output)", s, so.err, core.LastStarted(so.log, 2), len(so.out)))
+		} else if so.err != nil && !crashed {
+			r.Broken(fmt.Sprintf("worker shard %d: %v", s, so.err))
+		}
+		r.Max("slowest_shard_ms", int(so.took/time.Millisecond))
+	}
+	want := nBanner + nShim + c14NilCases
+	if only >= 0 {
+		want = 1
+	}
+	if len(seen) != want && r.Violations() == 0 {
+		r.Broken(fmt.Sprintf("%d of %d cases reported", len(seen), want))
+	}
+
+	r.Set("cases_by_component", kinds)
+	r.Set("outcomes", outcomes)
+	r.Set("observation_flags", flags)
+	r.Set("frames_served", outcomes["frame"]+outcomes["open:frame"])
+	r.Set("identical_passthroughs", outcomes["identical"]+outcomes["open:identical"]+outcomes["shim:identical-nonhtml"])
+	r.Set("framed_requests_given_original_body", outcomes["framed-original-body"]+outcomes["open:original-body"])
+	r.Set("shim_insertions", outcomes["shim:inserted"])
+	r.Set("shim_not_inserted_on_html", outcomes["shim:not-inserted"])
+	r.Set("worker_shards", shards)
+	if only < 0 {
+		c14E1Sample(r)
+	}
+
+	r.JudgeRaces(core.ParseRaceLogs(filepath.Join(r.WorkDir, "race-")))
+	min := r.Pick(5000, 240000)
+	if only >= 0 {
+		min = 1
+	}
+	r.Finish(min)
+}
+
+// ------------------------------------------------------------ E1 sample
+
+// c14E1Case is one request sent through the real agent binary (started with
+// --inject-banner --shim-websockets --shim-path) by way of the fake proxy.
+type c14E1Case struct {
+	N       int
+	Method  string
+	Target  string
+	URLKind string
+	Accept  string
+	Framing string // none | dest-iframe | referer-same
+	Status  int
+	CT      string
+	CD      string
+	Interim bool
+	Head    string // early | beyond | none
+	Body    []byte `json:"-"`
+	D       bool
+	Framed  bool
+	HTML    bool // Content-Type contains "html": the shim script may be spliced in
+}
+
+const c14E1Host = "c14.example"
+const c14E1Banner = `<b id="c14-banner">proxied {{.X}} &amp; "quoted"</b>`
+
+func c14E1Cases(r *core.Run, n int) []*c14E1Case {
+	rng := r.Rand("c14-e1")
+	var out []*c14E1Case
+	for i := 0; i < n; i++ {
+		c := &c14E1Case{N: i}
+		// the first 24 cases enumerate the corner points, the rest is random
+		c.Method = []string{"GET", "GET", "GET", "POST"}[rng.Intn(4)]
+		c.Accept = []string{"text/html", "text/html,application/xhtml+xml;q=0.9,*/*;q=0.8", "application/json", ""}[rng.Intn(4)]
+		c.Framing = []string{"none", "none", "dest-iframe", "referer-same"}[rng.Intn(4)]
+		c.Status = []int{200, 200, 200, 404, 500, 201}[rng.Intn(6)]
+		c.CT = []string{"text/html; charset=utf-8", "text/html; charset=utf-8", "application/xhtml+xml", "text/plain", "application/json", ""}[rng.Intn(6)]
+		c.CD = []string{"", "", "inline", "attachment; filename=x"}[rng.Intn(4)]
+		c.URLKind = []string{"plain", "query", "query", "quote", "entity"}[rng.Intn(5)]
+		c.Interim = rng.Intn(10) == 0
+		c.Head = []string{"early", "early", "beyond", "none"}[rng.Intn(4)]
+		if i < 24 {
+			c.Method, c.Accept, c.Status, c.CT, c.CD, c.Framing = "GET", "text/html", 200, "text/html; charset=utf-8", "", "none"
+			c.Interim = false
+			switch i % 12 {
+			case 1:
+				c.Method = "POST"
+			case 2:
+				c.Accept = "application/json"
+			case 3:
+				c.Status = 404
+			case 4:
+				c.CT = "text/plain"
+			case 5:
+				c.CD = "attachment; filename=x"
+			case 6:
+				c.Framing = "dest-iframe"
+			case 7:
+				c.Framing = "referer-same"
+			case 8:
+				c.URLKind = "quote"
+			case 9:
+				c.URLKind = "entity"
+			case 10:
+				c.Interim, c.Status = true, 404
+			case 11:
+				c.Interim = true
+			}
+		}
+		path := fmt.Sprintf("/e1/%d/page.html", i)
+		c.Target = path
+		switch c.URLKind {
+		case "query":
+			c.Target += fmt.Sprintf("?x=%d&y=two", rng.Intn(100))
+		case "quote":
+			c.Target += fmt.Sprintf(`?q="x%d"&r=<b>`, rng.Intn(100))
+		case "entity":
+			c.Target += fmt.Sprintf("?a=%d&amp;b=2&lt;c", rng.Intn(100))
+		}
+		pad := func(k int) string {
+			b := make([]byte, k)
+			for j := range b {
+				b[j] = "abcdefghij klmnop\n"[rng.Intn(18)]
+			}
+			return string(b)
+		}
+		switch c.Head {
+		case "early":
+			c.Body = []byte("<!doctype html><html><head><title>" + pad(20) + "</title></head><body>" + pad(200+rng.Intn(3000)) + "<head></body></html>")
+		case "beyond":
+			c.Body = []byte("<!doctype html><html><!--" + pad(1100+rng.Intn(500)) + "--><head><title>t</title></head><body>" + pad(300) + "</body></html>")
+		default:
+			c.Body = []byte(pad(1 + rng.Intn(2500)))
+		}
+		c.HTML = strings.Contains(strings.ToLower(c.CT), "html")
+		c.D = c.Method == "GET" && strings.Contains(c.Accept, "text/html") && c.Status == 200 && !strings.Contains(c.CD, "attachment") && c.HTML
+		c.Framed = c.Framing != "none"
+		out = append(out, c)
+	}
+	return out
+}
+
+func (c *c14E1Case) raw() []byte {
+	var w rawhttp.Builder
+	w.Line(c.Method+" "+c.Target+" HTTP/1.1").Field("Host", c14E1Host).Field("Accept-Encoding", "identity")
+	if c.Accept != "" {
+		w.Field("Accept", c.Accept)
+	}
+	switch c.Framing {
+	case "dest-iframe":
+		w.Field("Sec-Fetch-Dest", "iframe")
+	case "referer-same":
+		w.Field("Referer", "http://"+c14E1Host+fmt.Sprintf("/e1/%d/page.html", c.N))
+	}
+	if c.Method == "POST" {
+		w.Field("Content-Length", "3").End()
+		w.WriteString("abc")
+	} else {
+		w.End()
+	}
+	return w.Bytes()
+}
+
+func (c *c14E1Case) fields() []rawhttp.Field {
+	fs := []rawhttp.Field{{Name: "Set-Cookie", Value: fmt.Sprintf("a=%d; Path=/", c.N)}, {Name: "Set-Cookie", Value: "b=2; Path=/x"}, {Name: "X-Case", Value: strconv.Itoa(c.N)}}
+	if c.CT != "" {
+		fs = append(fs, rawhttp.Field{Name: "Content-Type", Value: c.CT})
+	}
+	if c.CD != "" {
+		fs = append(fs, rawhttp.Field{Name: "Content-Disposition", Value: c.CD})
+	}
+	return fs
+}
+
+func (c *c14E1Case) class() string {
+	return fmt.Sprintf("e1|%s|acc:%q|framed:%s|%d|ct:%q|cd:%q|url:%s|head:%s|1xx:%v", c.Method, c.Accept, c.Framing, c.Status, c.CT, c.CD, c.URLKind, c.Head, c.Interim)
+}
+
+// c14IframeSrcs: entity-decoded src attribute of every iframe start tag,
+// tokenised like an HTML parser (quoted values end at the matching quote).
+func c14IframeSrcs(doc string) []string {
+	var out []string
+	low := strings.ToLower(doc)
+	sp := func(b byte) bool { return b == ' ' || b == '\t' || b == '\n' || b == '\r' || b == '\f' }
+	pos := 0
+	for {
+		i := strings.Index(low[pos:], "<iframe")
+		if i < 0 {
+			return out
+		}
+		p := pos + i + len("<iframe")
+		pos = p
+		if p >= len(doc) || !(sp(doc[p]) || doc[p] == '>' || doc[p] == '/') {
+			continue
+		}
+		got := false
+		for p < len(doc) {
+			for p < len(doc) && (sp(doc[p]) || doc[p] == '/') {
+				p++
+			}
+			if p >= len(doc) || doc[p] == '>' {
+				break
+			}
+			ns := p
+			for p < len(doc) && !sp(doc[p]) && doc[p] != '=' && doc[p] != '>' && doc[p] != '/' {
+				p++
+			}
+			if p == ns {
+				p++
+				continue
+			}
+			name := low[ns:p]
+			for p < len(doc) && sp(doc[p]) {
+				p++
+			}
+			val := ""
+			if p < len(doc) && doc[p] == '=' {
+				p++
+				for p < len(doc) && sp(doc[p]) {
+					p++
+				}
+				if p < len(doc) && (doc[p] == '"' || doc[p] == '\'') {
+					q := doc[p]
+					p++
+					vs := p
+					for p < len(doc) && doc[p] != q {
+						p++
+					}
+					val = doc[vs:p]
+					if p < len(doc) {
+						p++
+					}
+				} else {
+					vs := p
+					for p < len(doc) && !sp(doc[p]) && doc[p] != '>' {
+						p++
+					}
+					val = doc[vs:p]
+				}
+			}
+			if name == "src" && !got {
+				got = true
+				out = append(out, html.UnescapeString(val))
+			}
+		}
+		pos = p
+	}
+}
+
+// c14Unshim returns (body without the script block, inserted?, problem).
+func c14Unshim(orig, out []byte) (inserted bool, problem string) {
+	const start, end = "<!--START_WEBSOCKET_SHIM-->", "<!--END_WEBSOCKET_SHIM-->"
+	if bytes.Equal(orig, out) {
+		return false, ""
+	}
+	if bytes.Count(out, []byte(start)) > 1 {
+		return true, "inserted-twice"
+	}
+	s, e := bytes.Index(out, []byte(start)), bytes.Index(out, []byte(end))
+	if s < 0 || e < s {
+		return false, "body-corrupted"
+	}
+	p := s
+	if !bytes.HasSuffix(out[:p], []byte("<head>")) && p > 0 && out[p-1] == '\n' {
+		p--
+	}
+	q := e + len(end)
+	ok := false
+	for _, qq := range []int{q, q + 1} {
+		if qq <= len(out) && (qq == q || out[q] == '\n') && bytes.Equal(append(append([]byte{}, out[:p]...), out[qq:]...), orig) {
+			ok = true
+		}
+	}
+	if !ok {
+		return true, "body-corrupted"
+	}
+	if !bytes.HasSuffix(out[:p], []byte("<head>")) || bytes.Index(orig, []byte("<head>")) != p-6 {
+		return true, "not-after-first-head"
+	}
+	return true, ""
+}
+
+// c14E1Sample sends ~100 requests through the agent binary with both
+// injections switched on and applies the same oracle to what the agent
+// uploads to the (fake) proxy.
+func c14E1Sample(r *core.Run) {
+	n := r.Pick(100, 300)
+	agentBin, err := r.BuildRepoBinary("./agent", "agent")
+	if err != nil {
+		r.Broken("E1 sample: " + err.Error())
+		return
+	}
+	md, err := fakes.NewMetadata()
+	if err != nil {
+		r.Broken("E1 sample: " + err.Error())
+		return
+	}
+	defer md.Close()
+	px, err := fakes.NewProxy()
+	if err != nil {
+		r.Broken("E1 sample: " + err.Error())
+		return
+	}
+	defer px.Close()
+	px.ListWait = 50 * time.Millisecond
+	cases := c14E1Cases(r, n)
+	backend, err := rawhttp.NewServer(func(req *rawhttp.Message, reqErr error, conn net.Conn, br *bufio.Reader) bool {
+		if reqErr != nil {
+			return false
+		}
+		parts := strings.Split(req.Target, "/")
+		var c *c14E1Case
+		if len(parts) > 2 && parts[1] == "e1" {
+			if k, err := strconv.Atoi(parts[2]); err == nil && k >= 0 && k < len(cases) {
+				c = cases[k]
+			}
+		}
+		var w rawhttp.Builder
+		if c == nil {
+			w.Line("HTTP/1.1 200 OK").Field("Content-Length", "2").End()
+			w.WriteString("ok")
+			conn.Write(w.Bytes())
+			return true
+		}
+		if c.Interim {
+			w.Line("HTTP/1.1 103 Early Hints").Field("Link", "</early.css>; rel=preload").End()
+		}
+		w.Line(fmt.Sprintf("HTTP/1.1 %d Scripted", c.Status)).Fields(c.fields()).Field("Content-Length", strconv.Itoa(len(c.Body))).End()
+		w.Write(c.Body)
+		_, err := conn.Write(w.Bytes())
+		return err == nil
+	})
+	if err != nil {
+		r.Broken("E1 sample: " + err.Error())
+		return
+	}
+	defer backend.Close()
+	agent, err := startAgent(r, agentBin, "agent-c14", md, px.URL(), backend.Addr(), "b1",
+		"--inject-banner="+c14E1Banner, "--banner-height=33px", "--favicon-url=/fav.png", "--shim-websockets", "--shim-path=shim")
+	if err != nil {
+		r.Broken("E1 sample: " + err.Error())
+		return
+	}
+	defer agent.Kill()
+
+	outcomes := map[string]int{}
+	sem := make(chan struct{}, 8)
+	var wg sync.WaitGroup
+	var mu sync.Mutex
+	for _, c := range cases {
+		wg.Add(1)
+		sem <- struct{}{}
+		go func(c *c14E1Case) {
+			defer wg.Done()
+			defer func() { <-sem }()
+			id := fmt.Sprintf("c14e1-%d-%d", r.Seed, c.N)
+			px.Enqueue(id, c.raw(), "user@example.com")
+			up, ok := px.Wait(id, 60*time.Second)
+			if !ok || up == nil || up.Resp == nil {
+				r.Inconclusive(fmt.Sprintf("E1 case %d: no complete upload from the agent within 60s", c.N))
+				return
+			}
+			o := c14E1Judge(r, c, up.Resp)
+			mu.Lock()
+			outcomes[o]++
+			mu.Unlock()
+		}(c)
+	}
+	wg.Wait()
+	r.Set("e1_sample", map[string]interface{}{"requests": n, "outcomes": outcomes,
+		"agent_flags": "--inject-banner=<html> --banner-height=33px --favicon-url=/fav.png --shim-websockets --shim-path=shim (fake proxy, fake metadata, scripted raw-TCP backend)"})
+	judgeProcs(r, true, agent)
+}
+
+func c14E1Judge(r *core.Run, c *c14E1Case, got *rawhttp.Message) string {
+	r.Case(c.class())
+	pre := "C14:e1:banner:"
+	if c.Interim {
+		pre = "C14:e1:banner:interim-1xx:"
+	}
+	detail := map[string]interface{}{"raw_request": string(c.raw()), "backend_status": c.Status, "backend_fields": c.fields(), "backend_body_len": len(c.Body),
+		"client_status": got.Status, "client_fields": got.Fields, "client_body_len": len(got.Body), "client_body_head": core.Trunc(string(got.Body), 600)}
+	viol := func(sig, msg string) string {
+		r.Violate(sig, fmt.Sprintf("E1 case %d: %s | %s %s Accept=%q framing=%s -> backend %d Content-Type=%q Content-Disposition=%q interim103=%v", c.N, msg, c.Method, c.Target, c.Accept, c.Framing, c.Status, c.CT, c.CD, c.Interim), c, detail)
+		return "violation"
+	}
+	// headers the backend sent must arrive unchanged (Content-Length is transport framing here)
+	hdrSame := func() string {
+		want, have := fieldMap(c.fields()), fieldMap(got.Fields)
+		for k, v := range want {
+			if strings.Join(have[k], "\x00") != strings.Join(v, "\x00") {
+				return fmt.Sprintf("field %q: %q became %q", k, v, have[k])
+			}
+		}
+		for _, k := range []string{"cache-control", "pragma", "expires", "x-frame-options"} {
+			if v, ok := have[k]; ok {
+				return fmt.Sprintf("field %q: %q added", k, v)
+			}
+		}
+		return ""
+	}
+	inserted, shimProblem := c14Unshim(c.Body, got.Body)
+	frameOK, frameProblem := func() (bool, string) {
+		if got.Status != 200 {
+			return false, "frame-status"
+		}
+		found := false
+		for _, src := range c14IframeSrcs(string(got.Body)) {
+			if src == c.Target {
+				found = true
+			}
+		}
+		if !found {
+			if len(c14IframeSrcs(string(got.Body))) > 0 && (c.URLKind == "quote" || c.URLKind == "entity") {
+				return false, "frame-url-unescaped:" + c.URLKind
+			}
+			return false, "frame-missing-url"
+		}
+		cc := strings.ToLower(strings.Join(got.Get("Cache-Control"), ","))
+		if !strings.Contains(cc, "no-store") && !strings.Contains(cc, "no-cache") {
+			return false, "frame-cacheable"
+		}
+		x := got.Get("X-Frame-Options")
+		if len(x) != 1 || !strings.EqualFold(x[0], "sameorigin") {
+			return false, "frame-not-sameorigin"
+		}
+		return true, ""
+	}()
+	switch {
+	case !c.D && !c.HTML:
+		if got.Status != c.Status {
+			return viol(pre+"non-html-altered:status", fmt.Sprintf("status %d became %d", c.Status, got.Status))
+		}
+		if d := hdrSame(); d != "" {
+			return viol(pre+"non-html-altered:headers", d)
+		}
+		if !bytes.Equal(got.Body, c.Body) {
+			return viol("C14:e1:non-html-altered:body", fmt.Sprintf("body %d B became %d B", len(c.Body), len(got.Body)))
+		}
+		return "identical"
+	case !c.D || c.Framed:
+		// an HTML document that must not be framed: only the script splice is allowed
+		if !c.D {
+			if got.Status != c.Status {
+				return viol(pre+"non-html-altered:status", fmt.Sprintf("status %d became %d", c.Status, got.Status))
+			}
+			if d := hdrSame(); d != "" {
+				return viol(pre+"non-html-altered:headers", d)
+			}
+		}
+		if shimProblem != "" {
+			sig := "C14:e1:shim:" + shimProblem
+			if frameOK || strings.Contains(string(got.Body), "inverting-proxy-frame") || !bytes.Contains(got.Body, []byte("_WEBSOCKET_SHIM")) {
+				sig = pre + "non-html-altered:body"
+				if c.Framed && c.D {
+					sig = pre + "framed-body-altered"
+				}
+			}
+			return viol(sig, fmt.Sprintf("body %d B became %d B and is not the original with one script block after the first <head>", len(c.Body), len(got.Body)))
+		}
+		if inserted {
+			return "original+script"
+		}
+		return "original"
+	default: // D and not framed
+		if frameOK {
+			return "frame"
+		}
+		if shimProblem == "" {
+			return viol(pre+"frame-not-served", "frameable HTML reply to an unframed request came back without the frame")
+		}
+		return viol(pre+frameProblem, fmt.Sprintf("frame page is not well formed: iframe src values %q, requested URL %q", c14IframeSrcs(string(got.Body)), c.Target))
+	}
 }
